@@ -454,8 +454,14 @@ class ExpectedParallelImprovementWithFailures(ExpectedParallelImprovement):
 
       max_improvement = numpy.fmax(0.0, numpy.amax(posterior_improvement_predictions_not_failures, axis=0))
       if numpy.sum(max_improvement) == 0:
-        success_prob = self.failure_model.compute_probability_of_success(points_to_evaluate[:, 0, :])
-        posterior_improvement_predictions_not_failures = posterior_improvement_predictions * success_prob[None, :, None]
+        # No draw is both improving and successful: weight the improvement at each point by the success
+        # probability of that same point (points being sampled included), not by that of the first candidate.
+        success_prob = numpy.empty((covariance_size, num_to_evaluate))
+        for i in range(num_to_sample):
+          success_prob[i] = self.failure_model.compute_probability_of_success(points_to_evaluate[:, i, :])
+        if self.num_points_being_sampled:
+          success_prob[num_to_sample:] = self.failure_model.compute_probability_of_success(self.points_being_sampled)[:, None]
+        posterior_improvement_predictions_not_failures = posterior_improvement_predictions * success_prob[:, :, None]
         max_improvement = numpy.fmax(0.0, numpy.amax(posterior_improvement_predictions_not_failures, axis=0))
       contribution_this_loop = numpy.sum(max_improvement, axis=1)
       result += contribution_this_loop
